@@ -2081,3 +2081,9 @@ TABLE["C06"] += [
     B("constructor-routine-formatted-twice", {"M18"},
       (MW, "                                      base=base)\n", "                                      base=base).format()\n")),
 ]
+_MEX_A = "            cases += textwrap.indent(textwrap.dedent('''\\\n                case {}:\n                  {}(nargout, out, nargin-1, in+1);\n                  break;\n                ''').format(wrapper_id, next_case if next_case else id_val[3]),"
+TABLE["C05"] += [
+    B("case-label-read-from-the-first-number-in-the-routine-name", {"I14", "I5"},
+      (MW, _MEX_A, _MEX_A.replace("format(wrapper_id, next_case if next_case else id_val[3])", "format(wrapper_id if next_case else int(re.search(r'_(\\d+)', id_val[3]).group(1)), next_case if next_case else id_val[3])")),
+      (MW, "import os\n", "import os\nimport re\n")),
+]
